@@ -13,6 +13,15 @@ from vcheck import catalog, gen, obs, opcheck, refmodel as R
 from vcheck.catalog import OPS
 from vcheck.opcheck import CART, CallRaised
 
+SHRINK = False
+
+
+def reduce_candidates(cell, bundle):
+    if len(bundle) > 1:
+        for sub in bundle:
+            yield [sub]
+
+
 PID = "C01"
 RULE = (
     "Cells = every catalogued public operation x operand dimensions x stored coordinate system of each operand "
